@@ -141,6 +141,14 @@ class LiftedSource:
             return a == b
         return abs(a - b) <= tol * scale
 
+    def close(self, a, b, tol=1e-12):
+        """a ~ b as polynomials in the solver variables: every coefficient of a-b is at most tol times the largest coefficient of b
+        (used where the library itself computes with inexact float constants such as 1/3).  Implies |a-b| <= tol*max|coef(b)|*sum|monomials|."""
+        d = SymNum.coerce(a - b)
+        bb = SymNum.coerce(b)
+        ref = max([abs(c) for c in bb.terms.values()] + [Fraction(1)])
+        return all(abs(c) <= Fraction(tol) * ref for c in d.terms.values())
+
     def observe(self, name, value):
         self.ctx.observations.append((name, value))
 
@@ -297,6 +305,11 @@ class ConcreteSource:
         a = float(a)
         b = float(b)
         return abs(a - b) <= CONC_TOL * max(1.0, abs(scale), abs(a), abs(b))
+
+    def close(self, a, b, tol=1e-12):
+        a = float(a)
+        b = float(b)
+        return abs(a - b) <= CONC_TOL * max(1.0, abs(a), abs(b))
 
     def observe(self, name, value):
         self.observations.append((name, value))
@@ -463,6 +476,18 @@ def run_job(job, seed=0):
                 summ['unknown'].append({'label': g.label, 'detail': g.detail, 'path': idx})
             elif g.status == 'violated':
                 _handle_violation(job, summ, ctx, S, g.model, g.label, g.detail, None)
+        if getattr(ctx, 'hashed_keys', None):
+            try:
+                core.set_ctx(ctx)
+                nob, bad = ctx.hashed_keys_distinct()
+            except BaseException as e:
+                nob, bad = 0, ['distinctness check failed: %r' % (e,)]
+            finally:
+                core.set_ctx(None)
+            summ['proved'] += nob - len(bad)
+            summ['labels']['engine:hashed-keys-pairwise-distinct'] = summ['labels'].get('engine:hashed-keys-pairwise-distinct', 0) + nob
+            for bmsg in bad[:3]:
+                summ['errors'].append({'kind': 'hash-soundness', 'msg': bmsg, 'path': idx})
         if pr.outcome == 'exception':
             et = type(pr.exc).__name__
             if any(isinstance(pr.exc, e) for e in job.expect_raises):
